@@ -114,6 +114,10 @@ DIRECTED = [
     ([("from shapes import Circle", "t"), ("from shapes import *", "m")], ["area_of"], 0),
     ([("from shapes import Square, Circle", "t"), ("from typing import *", "t"), ("from shapes import *", "m")],
      ["area_of", "pick"], 0),
+    # >= 2 new names from one module and >= 1 from another (the order of the moved list follows PYTHONHASHSEED)
+    ([], ["pick", "area_of", "origin"], 0),
+    ([("import os", "t")], ["both", "pick", "thing"], 0),
+    ([], ["pick", "area_of", "origin", "thing", "payload"], 0),
     # several small statements on one line
     ([("from shapes import Circle", "S")], ["area_of"], 0),
     ([("import os", "t"), ("from geo.pts import Point", "S"), ("from shapes import Square", "S")], ["origin", "pick"], 0),
@@ -187,6 +191,69 @@ def _build_case_star(job):
     return build_case(*job)
 
 
+HISTORY_RUNNER = r"""
+import json, sys
+from harness.props import C16
+jobs = json.load(open(sys.argv[1]))
+out = []
+for job in jobs:            # several applies, one after the other, in this one process
+    out.append(C16.build_case(*job))
+json.dump(out, open(sys.argv[2], "w"))
+"""
+
+HISTORY_SEEDS = (1, 2, 3, 4)
+
+
+def _multi_module_stub(stub):
+    """the stub brings >= 2 names from one non-typing module and >= 1 from another"""
+    import ast
+    per = {}
+    try:
+        for st in ast.parse(stub).body:
+            if isinstance(st, ast.ImportFrom) and st.module not in ("typing", "mypy_extensions", "__future__"):
+                per[st.module] = per.get(st.module, 0) + len(st.names)
+    except SyntaxError:
+        return False
+    return len(per) >= 2 and max(per.values()) >= 2
+
+
+def history_stream(ctx, jobs, base, fx_root, limit):
+    """HISTORY stream: the same applies, called in sequence inside ONE fresh interpreter (state kept between applies
+    shows), once per PYTHONHASHSEED in HISTORY_SEEDS (the order of list(set(import items)) follows the hash seed).
+    Every result goes through the same Coq verdict and execution as a case of its own."""
+    multi = [j for j in jobs if _multi_module_stub(j[2])]
+    chosen = jobs[:12] + multi[:limit]
+    seen, hist = set(), []
+    for j in chosen + [j for j in jobs if j[0] in (8, 21, 22, 40, 41)]:
+        if j[0] not in seen:
+            seen.add(j[0])
+            hist.append(j)
+    script = os.path.join(ctx.work, "c16_history.py")
+    with open(script, "w") as f:
+        f.write(HISTORY_RUNNER)
+    procs = []
+    for k, seed in enumerate(HISTORY_SEEDS):
+        order = hist if k % 2 == 0 else list(reversed(hist))
+        mine = [[base + 1000 * k + pos, j[1], j[2], j[3], j[4],
+                 dict(j[5], hashseed=seed, history_pos=pos, history_of=[x[0] for x in order[:pos]], original=j[0])]
+                for pos, j in enumerate(order)]
+        jf, of = os.path.join(ctx.work, f"hist_jobs_{seed}.json"), os.path.join(ctx.work, f"hist_out_{seed}.json")
+        json.dump(mine, open(jf, "w"))
+        procs.append((of, subprocess.Popen([common.PY, script, jf, of], env=common.sub_env({"PYTHONHASHSEED": str(seed)}),
+                                           cwd=common.VERIF, stdout=subprocess.PIPE, stderr=subprocess.PIPE, text=True)))
+    return procs, len(hist)
+
+
+def history_collect(procs):
+    cases = []
+    for of, p in procs:
+        _, err = p.communicate(timeout=900)
+        if p.returncode != 0 or not os.path.exists(of):
+            raise RuntimeError("history runner failed: " + err[-1500:])
+        cases += json.load(open(of))
+    return cases
+
+
 def execute(ctx, fx_root, idxs, chunk=24):
     """import <mod>_src / <mod>_out (top-level or inside the package G.PKG) in fresh interpreters and run the workload; returns {name: [status, value]}"""
     script = os.path.join(ctx.work, "c16_runner.py")
@@ -257,8 +324,13 @@ def describe(c, code, cl, beh):
         bits.append("clauses false: " + ", ".join(failing))
     if beh and beh[0] is False:
         bits.append("behaviour: " + beh[1])
-    return (f"confinement breaks the module: {'; '.join(bits)} | source={c['source']!r} stub={c['stub']!r} "
-            f"overwrite={c['overwrite']} -> output={c['output']!r}")[:1800]
+    hist = ""
+    if "hashseed" in c.get("meta", {}):
+        m = c["meta"]
+        hist = (f" [HISTORY: apply #{m['history_pos'] + 1} in one process with PYTHONHASHSEED={m['hashseed']}, after the "
+                f"applies of cases {m['history_of'][-6:]} of this run; the same apply alone is case {m['original']}]")
+    return (f"confinement breaks the module{hist}: {'; '.join(bits)} | source={c['source']!r} stub={c['stub']!r} "
+            f"overwrite={c['overwrite']} -> output={c['output']!r}")[:1900]
 
 
 def run(ctx):
@@ -309,7 +381,8 @@ def run(ctx):
                 dist["placement"][p] = dist["placement"].get(p, 0) + 1
         # the real code (libcst is slow: ~0.8 s per case) runs in worker processes
         from concurrent.futures import ProcessPoolExecutor
-        with ProcessPoolExecutor(max_workers=common.NCPU) as ex:
+        hist_procs, dist["history_len"] = history_stream(ctx, jobs, n + 5000, fx_root, 10 if ctx.tier == "quick" else 60)
+        with ProcessPoolExecutor(max_workers=max(2, common.NCPU - len(HISTORY_SEEDS))) as ex:
             cases = list(ex.map(_build_case_star, jobs, chunksize=4))
             # re-application stream: the result of a first application (which now holds `if TYPE_CHECKING:` blocks and
             # the __future__ import) is the source of a second application of the same stub, overwrite on and off
@@ -320,6 +393,9 @@ def run(ctx):
                                   dict(c["meta"], reapplied=c["i"])))
             dist["reapplied"] = len(again)
             cases += list(ex.map(_build_case_star, again, chunksize=4))
+        hist_cases = history_collect(hist_procs)
+        dist["history_cases"] = len(hist_cases)
+        cases += hist_cases
         codes, clauses, beh = evaluate(ctx, cases, fx_root)
     finally:
         _unload_fixture(fx_root)
@@ -367,16 +443,16 @@ def run(ctx):
     failures.sort(key=lambda f: (1 if f.get("finding") else 0))
     return {
         "evaluations": len(cases), "distinct_nontrivial": len(nontrivial),
-        "rule": "54 directed witnesses (the design-phase defects and their neighbours), then random sources: optional docstring / "
+        "rule": "57 directed witnesses (the design-phase defects and their neighbours), then random sources: optional docstring / "
                 "__future__ import, 0-5 import statements from a 32-entry pool (import a.b, aliases, star, typing, "
                 "mypy_extensions, clashing names) placed at the top, after a statement, in a function, under an existing "
                 "TYPE_CHECKING block (also aliased), in try/except, in one-line try / def / if suites, in module-level with / for / while / try-else / try-finally bodies (blocks and one-line suites), in TYPE_CHECKING blocks local to a function or class body, on `;`-joined lines (those cases are compared with the specification only, not with the model), or in the else / elif branch of the TYPE_CHECKING statement; a quarter of the targets are modules of a package and also use relative imports (from .m / .. / .a.b) whose tails coincide with the stub's absolute modules; 1-3 functions whose stub is rendered by MonkeyType's own "
                 "build_module_stubs_from_traces (k in {0,5}) or, for ~10%, hand-written with aliased imports (from a import b as c, import a.b as d) or plain module imports (import a.b); every case goes through the real apply step, "
                 "get_newly_imported_items and apply_stub_using_libcst(..., True); verdict in Coq; then source and result are "
                 "imported in fresh interpreters and run() compared; the results of all directed and a quarter of the random "
-                "cases are then the source of a second application of the same stub (re-application stream). non-trivial = the stub brings a newly imported item and "
+                "cases are then the source of a second application of the same stub (re-application stream); a HISTORY stream repeats the first directed cases and the cases whose stub brings >= 2 names from one module and one from another as a sequence of applies inside one fresh interpreter, once per PYTHONHASHSEED in 1..4 (forward and reversed order). non-trivial = the stub brings a newly imported item and "
                 "the source has an import; distinct by hash of the reified case",
-        "samples": [{"source": c["source"], "stub": c["stub"], "output": c["output"]} for c in cases[54:57]],
+        "samples": [{"source": c["source"], "stub": c["stub"], "output": c["output"]} for c in cases[57:60]],
         "distribution": dist, "failures": failures, "mismatches": mismatches,
         "relation": "module_eqb (confine stub src applied) out  /\\  set_eqb (newly stub src) impl_newly",
     }
